@@ -1,7 +1,7 @@
 #!/bin/bash
 # usage: tools/sweep.sh <tier> <seed...>   - runs every check for the given seeds without touching evidence; prints non-HELD outcomes
 TIER=$1; shift
-cd /verif
+cd "$(dirname "$0")/.."
 for s in "$@"; do
   for c in C01 C02 C03 C04 C05 C06 C07 C08 C09 C10 C11 C12 C13 C14 C15 C16 C17 C18 C19 C20; do
     out=$(VERIF_SEED=$s EAO_NO_EVIDENCE=1 ./check $c $TIER 2>&1); rc=$?
